@@ -59,7 +59,10 @@ def cases(tier, seed):
     # image (F104), a boolean mask (F108), a single row / column of pixels (known finding: refused)
     cat = [dict(channels=3, labels=["uv", "ir", "x-ray"]), dict(channels=3, labels=["R", "G", "B"]), dict(channels=2, labels=["a", "b"]),
            dict(channels=1, labels=["green"]), dict(channels=1, labels=["ir"]), dict(channels=0, constant=3.0), dict(channels=0, constant=0.0),
-           dict(channels=0, boolean=True), dict(channels=0, shape=[1, 7]), dict(channels=0, shape=[6, 1]), dict(channels=3, labels=["blue", "green", "red"])]
+           dict(channels=0, boolean=True), dict(channels=0, shape=[1, 7]), dict(channels=0, shape=[6, 1]), dict(channels=3, labels=["blue", "green", "red"]),
+           # labels that merely START like a colour name are labels, not colours: none is lost, none collides
+           dict(channels=3, labels=["blue", "green", "bright"]), dict(channels=2, labels=["red", "ruby"]), dict(channels=3, labels=["rot", "gruen", "blau"]),
+           dict(channels=2, labels=["background", "reference"]), dict(channels=0, zstack=3)]
     for j, extra in enumerate(cat):
         c = {"id": "tiff-cat-%d" % j, "kind": "tiff", "shape": [5 + j % 3, 4 + j % 4], "depth": 8, "via": ["hp.save", "save_image"][j % 2], "scaling": "auto",
              "seed": [seed, "tiffcat", j]}
@@ -218,6 +221,12 @@ def _run_h5(case, td):
         flags["name_none_or_filestem"] = bool(b.name in (None, "f0"))
     bad = _compare_meta(im, b, case["channels"], case.get("labels", LABELS))
     flags["metadata"] = not bad
+    # the usual workflow: load, process (the values become floats), save again, load: the file holds the processed values
+    proc = b.copy(data=np.asarray(b.values, dtype="float64") * 0.5 + 0.125) if b.dtype.kind != "c" else b.copy(data=b.values * 0.5 + 0.125)
+    p2 = os.path.join(td, "processed.h5")
+    hp.save(p2, proc)
+    b2 = hp.load(p2)
+    flags["processed_values_bitwise"] = bool(b2.shape == proc.shape and b2.dtype == proc.dtype and np.array_equal(b2.values, proc.values))
     return {"resid": {}, "flags": flags, "bad_fields": bad, "const": bool(im.size > 1 and np.ptp(np.abs(im.values)) == 0) or im.size <= 1}
 
 
@@ -228,6 +237,19 @@ def _run_tiff(case, td):
     rng = rng_for(*case["seed"])
     case = dict(case, named=True)
     im, kw, desc, sp = _make_image(case, rng, "float64", positive=True)
+    if case.get("zstack"):
+        # several z planes do not fit into one TIFF image: refused clearly, or all of them come back -- never the first plane alone
+        import xarray as xr
+        from holopy.core.errors import BadImage
+        vol = xr.concat([im.assign_coords(z=[float(k_)]) * (1.0 + 0.1 * k_) for k_ in range(case["zstack"])], dim="z")
+        vol.attrs = dict(im.attrs); vol.name = im.name
+        p = os.path.join(td, "vol.tif")
+        try:
+            (hp.save if case["via"] == "hp.save" else save_image)(p, vol)
+        except BadImage:
+            return {"resid": {}, "flags": {"z_stack_refused_or_kept": True}, "bad_fields": [], "const": False}
+        back = hp.load(p)
+        return {"resid": {}, "flags": {"z_stack_refused_or_kept": bool(back.sizes.get("z", 1) == case["zstack"])}, "bad_fields": [], "const": False}
     # value ranges: ordinary, very faint, low contrast on a large pedestal, large, straddling zero
     off, scl = [(0.0, 1.0), (0.0, 3e-9), (1.0, 1e-6), (4.0e4, 2.5e4), (-5.0, 10.0), (0.0, 1.0)][int(case["id"].split("-")[-1]) % 6]
     if scl != 1.0 or off != 0.0:
@@ -321,6 +343,14 @@ def _run_raster(case, td):
                 for c in chs:
                     ok &= bool(np.array_equal(im.sel(illumination=LABELS[c]).isel(z=0).transpose("x", "y").values, decoded[:, :, c]))
             flags["values"] = bool(ok)
+    # the channels may be listed as a tuple or an integer array as well as a list
+    if rgb and isinstance(ch, list):
+        for form_name, form in (("tuple", tuple(ch)), ("array", np.array(ch))):
+            try:
+                imf = load_image(p, spacing=(sx, sy), channel=form)
+                flags["channel_given_as_%s" % form_name] = bool(imf.dims == im.dims and np.array_equal(imf.values, im.values))
+            except Exception:
+                flags["channel_given_as_%s" % form_name] = False
     # scalar spacing = square pixels
     im2 = load_image(p, spacing=sx, channel=ch if rgb else None)
     flags["scalar_spacing"] = bool(np.allclose(im2.x.values, np.arange(nx) * sx) and np.allclose(im2.y.values, np.arange(ny) * sx))
